@@ -52,44 +52,15 @@ func rep(name, dsl string, tuples []fga.Tuple, obj, rel, ftype, frel string) {
 }
 
 func main() {
-	// A: base NoRel & subtract NoRel -> Has
-	rep("A", `model
-  schema 1.1
-type user
-type doc
-  relations
-    define a: [user]
-    define b: [user]
-    define c: [user]
-    define d: [user]
-    define v: (a but not b) but not (c but not d)`,
-		[]fga.Tuple{{Obj: "doc:1", Rel: "a", User: "user:x"}, {Obj: "doc:1", Rel: "b", User: "user:x"}, {Obj: "doc:1", Rel: "c", User: "user:x"}, {Obj: "doc:1", Rel: "d", User: "user:x"}},
-		"doc:1", "v", "user", "")
-	// B: base wildcard, NoRel base entry becomes Has
-	rep("B", `model
-  schema 1.1
-type user
-type doc
-  relations
-    define a: [user:*]
-    define b: [user]
-    define c: [user]
-    define v: (a but not b) but not c`,
-		[]fga.Tuple{{Obj: "doc:1", Rel: "a", User: "user:*"}, {Obj: "doc:1", Rel: "b", User: "user:x"}, {Obj: "doc:1", Rel: "c", User: "user:y"}},
-		"doc:1", "v", "user", "")
-	// C: Has and NoRel for the same user from two dispatches at top level
-	rep("C", `model
+	rep("D", `model
   schema 1.1
 type user
 type group
   relations
-    define a: [user]
-    define b: [user]
-    define member: a but not b
+    define member: [user]
 type doc
   relations
-    define viewer: [group#member]`,
-		[]fga.Tuple{{Obj: "group:1", Rel: "a", User: "user:x"}, {Obj: "group:2", Rel: "a", User: "user:x"}, {Obj: "group:2", Rel: "b", User: "user:x"},
-			{Obj: "doc:1", Rel: "viewer", User: "group:1#member"}, {Obj: "doc:1", Rel: "viewer", User: "group:2#member"}},
-		"doc:1", "viewer", "user", "")
+    define viewer: [group, group:*, group#member]`,
+		[]fga.Tuple{{Obj: "doc:1", Rel: "viewer", User: "group:a"}, {Obj: "doc:1", Rel: "viewer", User: "group:*"}, {Obj: "doc:1", Rel: "viewer", User: "group:b#member"}},
+		"doc:1", "viewer", "group", "member")
 }
